@@ -1,11 +1,18 @@
 import Spine.Cmd
-open Spine.Json Spine.Generated Spine.Cmd
+import Spine.CmdJson
+import Spine.JsonText
+open Spine.Json Spine.Generated Spine.Cmd Spine.CmdJson
 /-! Line protocol for the command-table model `Spine.Cmd` (C18). One op per line, one answer per line.
 
     cfg <0|1>            select the member of the family: deleteByRef off / on
     rt <function> <shape> build the command for the function and shape from the tokens
                           (empty, data, sel, el, sel2), print what is built, its wire keys, and what is
                           recognised after encode/decode
+    e2e <function> <shape> <V empty> ; <V data> ; <V sel> ; <V el> ; <V sel2>
+                          END TO END with real values (prefix notation of `Spine/JsonText.lean`): the command
+                          built from the values, as the Go value `cmdToV` of the schema's `CmdType`, its JSON by
+                          `Spine.Json.encode`, and what is recognised after `Spine.Json.decode` and `cmdOfV`
+                          (`Spine.CmdJson.e2e`)
     functions / features  the registered functions / the feature type constants of the regenerated table G1
     failing               the regenerated list of failing tag rows
     reset                 back to the member as written
@@ -85,6 +92,52 @@ def answerRt (cfg : Cfg) (fnName shape : String) : String :=
   | none, _ => "unknown-function"
   | _, none => "bad-op"
 
+def showTypedV : Option (Typed V) → String
+  | some t => s!"{keyToString t.ty}:{showV t.val}"
+  | none => "-"
+
+def showPairV : Option (Option (Typed V) × Option (Typed V)) → String
+  | some (s, e) => s!"(sel={showTypedV s},el={showTypedV e})"
+  | none => "-"
+
+/-- split a token list at the separator ";" -/
+def splitSemi (ts : List String) : List (List String) :=
+  ts.foldr (fun t acc => if t == ";" then [] :: acc else match acc with
+    | g :: gs => (t :: g) :: gs
+    | [] => [[t]]) [[]]
+
+def parseWhole (ts : List String) : Option V :=
+  match parseV ts with
+  | some (v, []) => some v
+  | _ => none
+
+def answerE2E (cfg : Cfg) (fnName shape : String) (rest : List String) : String :=
+  match functions.find? (·.name == fnName), parseShape shape with
+  | some fn, some sh =>
+    if !applicable fn sh then "n/a" else
+    match (splitSemi rest).map parseWhole with
+    | [some e, some d, some s, some el, some s2] =>
+      -- where the data model has no selectors / elements type for the function the harness sends `n`: the
+      -- argument is never used (`build` takes it only with a type); give it the value of the empty struct
+      let s := if (selTy? fn).isNone then V.strct [] else s
+      let s2 := if (selTy? fn).isNone then V.strct [] else s2
+      let el := if (elTy? fn).isNone then V.strct [] else el
+      let a : Args V := ⟨e, d, s, el, s2⟩
+      if !argsTyped fn a then "untyped" else
+      match build cfg fn sh a with
+      | .error p => showPanic p
+      | .ok c =>
+        let v := cmdToV c
+        let head := s!"V {showV v} | J {showJ (encode tCmdSchema v)}"
+        match e2e cfg fn sh a with
+        | .error p => head ++ " | " ++ showPanic p
+        | .ok none => head ++ " | rec none"
+        | .ok (some r) =>
+          head ++ s!" | rec fct={showFn r.function} ty={keyToString r.payloadTy} payload={showV r.payload} part={showPairV r.part} del={showPairV r.delete}"
+    | _ => "bad-op"
+  | none, _ => "unknown-function"
+  | _, none => "bad-op"
+
 partial def loop (h out : IO.FS.Stream) (cfg : Cfg) : IO Unit := do
   let line ← h.getLine
   if line.isEmpty then out.flush; return ()
@@ -92,6 +145,7 @@ partial def loop (h out : IO.FS.Stream) (cfg : Cfg) : IO Unit := do
     | ["cfg", "0"] => (clean, "ok")
     | ["cfg", "1"] => (asWritten, "ok")
     | ["rt", f, sh] => (cfg, answerRt cfg f sh)
+    | "e2e" :: f :: sh :: rest => (cfg, answerE2E cfg f sh rest)
     | ["functions"] => (cfg, " ".intercalate (functions.map (·.name)))
     | ["features"] => (cfg, " ".intercalate (featureFunctions.map (·.1) ++ featureTypesUnknown))
     | ["failing"] => (cfg, " ".intercalate (tagFailing.map fun r =>
